@@ -499,6 +499,91 @@ func runC16(seed int64, tier string, sc *Script, withBody bool) map[string]any {
 			}
 		}
 	}
+	// a concurrent mix: several goroutines share one client and one cache and talk to three
+	// registries with different schemes and realms at once; every request that reaches the
+	// network is checked for whose secrets it carries
+	if !withBody {
+		rounds := 6
+		if tier == "thorough" {
+			rounds = 120
+		}
+		for ri := 0; ri < rounds; ri++ {
+			sc.Case("auth-concurrent")
+			sc.NonTrivial()
+			cn := &concNet{hostNum: hostNum, base: &authNet{hostNum: hostNum}}
+			client := &auth.Client{
+				Client: &http.Client{Transport: cn},
+				Credential: func(ctx context.Context, reg string) (auth.Credential, error) {
+					n, ok := hostNum[reg]
+					if !ok || n > 3 {
+						return auth.EmptyCredential, nil
+					}
+					c := auth.Credential{Username: "user", Password: fmt.Sprintf("PW-h%d", n)}
+					if n == 3 {
+						c.RefreshToken = fmt.Sprintf("RT-h%d", n)
+					}
+					return c, nil
+				},
+			}
+			switch ri % 3 {
+			case 0:
+				client.Cache = auth.NewCache()
+			case 1:
+				client.Cache = auth.NewSingleContextCache()
+			}
+			var wg sync.WaitGroup
+			workers := 4 + rng.Intn(6)
+			seeds := make([]int64, workers)
+			for w := range seeds {
+				seeds[w] = rng.Int63()
+			}
+			for w := 0; w < workers; w++ {
+				wg.Add(1)
+				go func(w int) {
+					defer wg.Done()
+					lr := rand.New(rand.NewSource(seeds[w]))
+					for k := 0; k < 25; k++ {
+						host := hosts[1+lr.Intn(3)]
+						ctx := context.Background()
+						if lr.Intn(2) == 0 {
+							ctx = auth.WithScopesForHost(ctx, host, scopePool[lr.Intn(len(scopePool))])
+						}
+						req, _ := http.NewRequestWithContext(ctx, http.MethodGet, "https://"+host+"/v2/a/manifests/x", nil)
+						if resp, err := client.Do(req); err == nil {
+							resp.Body.Close()
+						}
+					}
+				}(w)
+			}
+			wg.Wait()
+			verdict := "clean"
+			cn.mu.Lock()
+			for _, o := range cn.out {
+				// realm that each registry advertises: h1 -> realm.test (4), h3 -> itself
+				for _, m := range strings.Split(o.sec, "+") {
+					switch {
+					case len(m) == 3 && (m[:2] == "pw" || m[:2] == "rt" || m[:2] == "at"):
+						owner := int(m[2] - '0')
+						realmOf := map[int]int{1: 4, 3: 3}
+						if o.to != owner && !(o.fetch && m[:2] != "at" && realmOf[owner] == o.to && realmOf[owner] != 0) {
+							verdict = fmt.Sprintf("leak:to=%d:%s", o.to, m)
+						}
+					case strings.HasPrefix(m, "tok"):
+						var id int
+						fmt.Sscanf(m, "tok%d", &id)
+						if owner := id / 100000; owner != o.to {
+							verdict = fmt.Sprintf("leak:to=%d:%s", o.to, m)
+						}
+					}
+				}
+			}
+			nreq := len(cn.out)
+			cn.mu.Unlock()
+			sc.Op(verdict, "au scan concurrent workers=%d cache=%d", workers, ri%3)
+			sc.Count(fmt.Sprintf("concurrent-requests:%d", (nreq/100)*100))
+			evals++
+		}
+	}
 	// CleanScopes: exhaustive short lists over a pool of well-formed and malformed scopes
 	sc.Case("clean-scopes")
 	sc.NonTrivial()
@@ -545,4 +630,62 @@ func runC16(seed int64, tier string, sc *Script, withBody bool) map[string]any {
 	}
 	sc.Extra["evaluations"] = evals
 	return nil
+}
+
+// concNet is a stateless, goroutine-safe network for the concurrent mix: registry h1 asks for
+// a Bearer token from realm.test, h2 for Basic, h3 for a Bearer token from its own /token;
+// a token endpoint issues a token numbered after the registry whose secret it was shown.
+type concNet struct {
+	mu      sync.Mutex
+	hostNum map[string]int
+	base    *authNet // for its marker scanner
+	out     []concOut
+	seq     int
+}
+
+type concOut struct {
+	to    int
+	sec   string
+	fetch bool
+}
+
+func (n *concNet) RoundTrip(req *http.Request) (*http.Response, error) {
+	host := req.URL.Host
+	hn := n.hostNum[host]
+	var body []byte
+	if req.Body != nil && req.Body != http.NoBody {
+		body, _ = io.ReadAll(req.Body)
+	}
+	sec := n.base.markers(req, body)
+	mk := func(code int, body string) *http.Response {
+		return &http.Response{StatusCode: code, Status: fmt.Sprint(code), Header: http.Header{}, Body: io.NopCloser(strings.NewReader(body)), Request: req}
+	}
+	n.mu.Lock()
+	defer n.mu.Unlock()
+	if strings.HasPrefix(req.URL.Path, "/token") {
+		n.out = append(n.out, concOut{hn, sec, true})
+		owner := 0
+		for _, m := range strings.Split(sec, "+") {
+			if len(m) == 3 && (m[:2] == "pw" || m[:2] == "rt") {
+				owner = int(m[2] - '0')
+			}
+		}
+		n.seq++
+		tok := fmt.Sprintf("TOK-%d", owner*100000+n.seq)
+		return mk(200, fmt.Sprintf(`{"token":%q,"access_token":%q}`, tok, tok)), nil
+	}
+	n.out = append(n.out, concOut{hn, sec, false})
+	if req.Header.Get("Authorization") != "" {
+		return mk(200, ""), nil
+	}
+	resp := mk(401, "")
+	switch hn {
+	case 1:
+		resp.Header.Set("Www-Authenticate", `Bearer realm="https://realm.test/token",service="svc",scope="repository:a:pull"`)
+	case 2:
+		resp.Header.Set("Www-Authenticate", `Basic realm="x"`)
+	default:
+		resp.Header.Set("Www-Authenticate", fmt.Sprintf(`Bearer realm="https://%s/token",service="svc",scope="repository:a:pull"`, host))
+	}
+	return resp, nil
 }
